@@ -33,6 +33,10 @@ Check(e) ==
     [] e.op = "slip39" -> LET r == MasterSecret(e.mnemonics, HX(e.pass)) IN
                             IF r[1] = "refused" THEN e.refused ELSE ~e.refused /\ e.out = ToHex(r[2])
     \* a qualifying selection of shares made for a known secret (by the library or by the specification): it must recover it
+    \* a share read back field by field: every value of every field (identifier, extendable flag, the 16 iteration exponents, group and member indexes, thresholds, counts)
+    [] e.op = "slip39share" -> LET d == Decode(e.indexes) IN
+          IF d[1] = "refused" THEN e.refused
+          ELSE ~e.refused /\ e.fields = <<d[2].id, IF d[2].ext THEN 1 ELSE 0, d[2].e, d[2].gi, d[2].gt, d[2].gc, d[2].mi, d[2].mt>> /\ HX(e.value) = d[2].value /\ e.back = e.indexes
     [] e.op = "slip39own" -> ~e.refused /\ e.out = e.secret /\ MasterSecret(e.mnemonics, HX(e.pass)) = <<"ok", HX(e.secret)>>
     [] e.op = "hmac512" -> e.out = ToHex(HMAC(HF("sha512"), HX(e.key), HX(e.msg)))
 EventOK == i > 0 => Check(Trace[i])
